@@ -20,6 +20,30 @@ META = {
                 "a case is non-trivial if the message has >= 1 payload; distinct = distinct hash of (check, model JSON)",
         "assumptions": COMMON_ASSUME + ["equality is on the normalised model: nil == empty byte string; transforms compared per transform type in order (all the library's data model can hold)"],
     },
+    "C04": {
+        "technique": "deterministic exhaustive boundary sweeps + property-based testing (rapid) + native coverage-guided fuzzing, oracle: value-or-error, no panic/hang, capacity independence (exact-capacity vs poisoned spare capacity), whole = sum of parts",
+        "level_text": "Every decoding entry point is driven with (a) exhaustive sweeps: every prefix of fixed templates, every value of every 8-bit size field and boundary values of every 16/32-bit length field combined with buffer lengths in a window around the implied extents, hand-built nested SA structures with consistent outer lengths, SK bodies of every short length with and without a valid ICV for all 9 suites and both roles; (b) rapid-generated raw and structure-mutated strings; (c) post-MAC inputs built by a reference SK builder with arbitrary inner octets and pad-length octets; (d) native fuzz targets in the thorough tier. A panic, a hang (watchdog) or any dependence of the outcome on memory behind the slice is a violation. Exploration with exhaustive sub-tables.",
+        "level_note": EXPLORATION_NOTE + "; 'work bounded by the input length' is checked as termination plus an output-size guard, not as a complexity bound",
+        "rule": "cases = (entry point, byte string [, suite, keys, role, header mode]); sweeps enumerate templates x size fields x values x truncation lengths, rapid draws raw / valid / mutated strings; non-trivial = the decoder got past its first bounds check (a value was returned, or the error is not one of the 'no sufficient bytes for the fixed header' messages); distinct by hash of (entry, octets, keys, role, header mode)",
+        "assumptions": COMMON_ASSUME + ["capacity independence is observed through two (quick) or four (thorough) poison patterns in >= 96 octets of spare capacity and an exact-capacity copy on which any read past len panics"],
+        "fuzz": [{"name": "FuzzC04Message", "seconds": 90}, {"name": "FuzzC04Body", "seconds": 90}, {"name": "FuzzC04EAP", "seconds": 60}, {"name": "FuzzC04UnprotectInner", "seconds": 90}],
+        "timeout_quick": 900, "timeout_thorough": 7200,
+    },
+    "C12": {
+        "technique": "property-based testing (rapid) over accepted byte strings (mutated / reference-built / short-body images) + native fuzzing: one-step fixed point of decode/encode, canonical input => byte-identical output",
+        "level_text": "Metamorphic fixed-point oracle on byte strings the decoder accepts: decode, encode, decode again must give an equal message and the second encoding must equal the first; canonical reference-built datagrams must re-encode byte-identically. Inputs are structure-aware mutations of valid images (lengths, reserved bits, flags, type codes, attribute encodings), reference images with sender liberties, chains of supported payload types with arbitrary short bodies, raw strings, and bare EAP packets. Exploration.",
+        "level_note": EXPLORATION_NOTE + "; an Encode error or panic on a decoded message discharges the premise (counted as 'unencodable' / 'encode_panics', printed as OBSERVATION), as the property is worded",
+        "rule": "rapid draws a byte string by one of: canonical reference encoding, reference encoding with liberties, 1-4 structure-aware mutations of a valid image, raw octets, supported-type payloads with arbitrary short bodies; non-trivial = accepted by the decoder AND re-encodable (none of the inputs is produced by the library's own encoder); distinct by hash of the octets",
+        "assumptions": COMMON_ASSUME + ["canonical = zero reserved bits, no unsupported payloads, transforms in ascending transform-type order (the library's data model cannot hold another order)"],
+        "fuzz": [{"name": "FuzzC12Stable", "seconds": 90}, {"name": "FuzzC12EAPStable", "seconds": 60}],
+    },
+    "C13": {
+        "technique": "exhaustive single-insertion table (239 type codes x positions x flag x hosts x entry points) + property-based testing (rapid) of multi-insertions; oracle: equals host message / error if critical",
+        "level_text": "Metamorphic oracle: a reference-encoded message with inserted payloads of unimplemented types must decode exactly like the host message when none is critical and must be rejected when any is; critical flags on implemented types must change nothing. Single insertions are enumerated exhaustively; multiple / adjacent insertions with bodies up to 1024 octets and random reserved bits are generated. Exploration with an exhaustive sub-table.",
+        "level_note": EXPLORATION_NOTE,
+        "rule": "table: all type codes 1..32, 49..255 x {front, middle, end} x {critical, not} x 3 host messages x {whole message, payload container}; rapid: 1..4 insertions into generated domain messages; non-trivial = an insertion that is not at the end of the chain (the chain must be followed through it), or a critical one; distinct by hash of the input",
+        "assumptions": COMMON_ASSUME,
+    },
     "C05": {
         "technique": "property-based testing (rapid): differential against an independently written RFC 7296 codec, both directions, with sender liberties",
         "level_text": "Differential testing against a strict reference parser (library output must be well-formed and parse to the same fields) and a reference encoder with random reserved bits / critical flags / transform interleavings (library must decode to the fields encoded). Catches symmetric encoder+decoder errors a round trip cannot see. Exploration.",
